@@ -363,7 +363,7 @@ func rulePayloadOwn(c *Ctx) {
 	}
 }
 
-const textOperandLoop = "R-C05-operand-loop: a set-algebra worker (result *redisDict, looping over its key-name operands) leaves the operand loop early only to report a failure or to return a newly created empty set (the absorbing case of an intersection); it never returns the partially accumulated result from inside the loop — a missing operand is an empty set, and the operands after it still count"
+const textOperandLoop = "R-C05-operand-loop: a set-algebra worker (result *redisDict, looping over its key-name operands) answers before it has looked at every operand only to report a failure: it never returns the partially accumulated result from inside the loop — a missing operand is an empty set, and the operands after it still count — and not the empty set either (the absorbing case of an intersection, a missing first operand of a difference): Redis 7 examines every operand before it answers, so a wrong-typed key behind a missing one is WRONGTYPE"
 
 func ruleOperandLoop(c *Ctx) {
 	c.S.Rule("R-C05-operand-loop", textOperandLoop, 3)
@@ -407,10 +407,18 @@ func ruleOperandLoop(c *Ctx) {
 			body := h.Succs[0]
 			key := fmt.Sprintf("%s:loop-over-%s#%d", fnName(fn), par.Name(), n)
 			bad := ""
+			exit := h.Succs[1]
 			for _, b := range fn.Blocks {
 				ret, ok := b.Instrs[len(b.Instrs)-1].(*ssa.Return)
-				if !ok || !(b == body || body.Dominates(b)) {
+				if !ok {
 					continue
+				}
+				inLoop := b == body || body.Dominates(b)
+				if !inLoop && (b == exit || exit.Dominates(b)) {
+					continue // after the loop ran to its end
+				}
+				if !inLoop && n > 1 {
+					continue // judged against the first loop over the operands
 				}
 				// failure exit?
 				fail := false
@@ -426,13 +434,18 @@ func ruleOperandLoop(c *Ctx) {
 				}
 				for _, leaf := range phiLeaves(ret.Results[0], map[ssa.Value]bool{}) {
 					if isNilConst(leaf) || isEmptyDictCall(leaf) {
+						if bad == "" {
+							bad = fmt.Sprintf("%s answers with the empty set at %s before it has looked at every operand in %s: Redis 7 examines them all first, so a wrong-typed key behind a missing one is still WRONGTYPE (SINTER nokey str)", fnName(fn), c.Pos(ret.Pos()), par.Name())
+						}
 						continue
 					}
-					bad = fmt.Sprintf("%s returns from inside the loop over %s at %s with the accumulated result (%s): the remaining operands are ignored", fnName(fn), par.Name(), c.Pos(ret.Pos()), leaf.Name())
+					if inLoop {
+						bad = fmt.Sprintf("%s returns from inside the loop over %s at %s with the accumulated result (%s): the remaining operands are ignored", fnName(fn), par.Name(), c.Pos(ret.Pos()), leaf.Name())
+					}
 				}
 			}
 			if bad == "" {
-				c.S.OK("R-C05-operand-loop", key, c.Pos(c.InstrPos(ifi)), "early exits report a failure or return a new empty set")
+				c.S.OK("R-C05-operand-loop", key, c.Pos(c.InstrPos(ifi)), "every answer that is not a failure is given after the loop over the operands ran to its end")
 			} else {
 				c.S.Bad("R-C05-operand-loop", key, c.Pos(c.InstrPos(ifi)), bad)
 			}
